@@ -189,44 +189,44 @@ struct client {
 	}
 };
 
-static bool http_complete(std::string const &b)
+static size_t http_complete(std::string const &b)
 {
 	size_t he = b.find("\r\n\r\n");
-	if (he == std::string::npos) return false;
+	if (he == std::string::npos) return 0;
 	std::string head = b.substr(0, he + 2);
 	std::string lower = head; for (size_t i = 0; i < lower.size(); i++) lower[i] = tolower(lower[i]);
 	size_t body = he + 4;
 	size_t p = lower.find("\r\ncontent-length:");
 	if (p != std::string::npos) {
 		long long n = atoll(head.c_str() + p + 17);
-		return b.size() >= body + size_t(n);
+		return b.size() >= body + size_t(n) ? body + size_t(n) : 0;
 	}
 	if (lower.find("\r\ntransfer-encoding: chunked") != std::string::npos) {
 		size_t q = body;
 		for (;;) {
 			size_t e = b.find("\r\n", q);
-			if (e == std::string::npos) return false;
+			if (e == std::string::npos) return 0;
 			unsigned long n = strtoul(b.c_str() + q, 0, 16);
 			q = e + 2;
-			if (n == 0) return b.size() >= q + 2;
-			if (b.size() < q + n + 2) return false;
+			if (n == 0) return b.size() >= q + 2 ? q + 2 : 0;
+			if (b.size() < q + n + 2) return 0;
 			q += n + 2;
 		}
 	}
-	return false; // close-delimited
+	return 0; // close-delimited
 }
 
-static bool fcgi_complete(std::string const &b)
+static size_t fcgi_complete(std::string const &b)
 {
 	size_t q = 0;
 	while (b.size() >= q + 8) {
 		unsigned char const *h = (unsigned char const *)b.data() + q;
 		size_t cl = (h[4] << 8) | h[5], pl = h[6];
-		if (b.size() < q + 8 + cl + pl) return false;
-		if (h[1] == 3) return true; // END_REQUEST
+		if (b.size() < q + 8 + cl + pl) return 0;
+		if (h[1] == 3) return q + 8 + cl + pl; // END_REQUEST
 		q += 8 + cl + pl;
 	}
-	return false;
+	return 0;
 }
 
 int main(int argc, char **argv)
@@ -286,6 +286,7 @@ int main(int argc, char **argv)
 			fe::g_resp_log.clear();
 			std::string proto = v[0];
 			client c;
+			std::string leftover;
 			std::ostringstream out;
 			bool ok = c.open(proto);
 			if (!ok) out << "CONNECT-FAILED ";
@@ -297,13 +298,16 @@ int main(int argc, char **argv)
 					if (s[0] == 'S') c.wait_consumed();
 				}
 				else if (s == "H") { shutdown(c.fd, SHUT_WR); }
-				else if (s == "N") { ok = c.open(proto); }
+				else if (s == "N") { ok = c.open(proto); leftover.clear(); }
 				else if (s == "R" || s == "E") {
 					std::string buf; bool timeout = false;
+					buf.swap(leftover);
 					for (;;) {
 						if (s == "R") {
-							if (proto == "http" && http_complete(buf)) break;
-							if (proto == "fcgi" && fcgi_complete(buf)) break;
+							size_t end = 0;
+							if (proto == "http") end = http_complete(buf);
+							if (proto == "fcgi") end = fcgi_complete(buf);
+							if (end) { leftover = buf.substr(end); buf.resize(end); break; }
 						}
 						int n = c.read_some(buf);
 						if (n == 0) break;
@@ -312,11 +316,12 @@ int main(int argc, char **argv)
 					out << hex(buf) << (timeout ? "!T" : "") << " ";
 				}
 				else if (s.size() > 1 && s[0] == 'W') { usleep(1000 * atoi(s.c_str() + 1)); }
+				else if (s.size() > 1 && s[0] == 'X' && s[1] == ':') { /* expectation for the oracle: ignored here */ }
 				else out << "BAD-STEP ";
 			}
 			c.closefd();
 			// let the service finish with the connection (handler counters settle)
-			for (int i = 0; i < 200; i++) { usleep(100); }
+			for (int i = 0; i < 10; i++) { usleep(100); }
 			out << "calls=" << (g_sync_calls - c0) << "," << (g_async_calls - c1) << "," << (g_err_calls - c2);
 			if (!fe::g_resp_log.empty()) out << " log=" << fe::g_resp_log;
 			std::cout << out.str() << std::endl;
